@@ -92,6 +92,7 @@ def _task_public(args):
     db = refdb.db()
     dec, enc = NMEA2000Decoder(), NMEA2000Encoder()
     bad, n = [], 0
+    refused, accepted = {}, set()
     from .. import payloads
     for pgn in pgns:
         defn = next(d for d in db.by_pgn[pgn] if d.encodable)
@@ -112,8 +113,12 @@ def _task_public(args):
                         pk_e = enc.encode_ebyte(msg)
                         pk_u = enc.encode_usb(msg)
                         pk_y = enc.encode_yacht_devices(msg)
-                    except Exception:  # noqa: BLE001
-                        continue        # whether this message can be encoded at all is C02/C09's subject
+                    except Exception as ex:  # noqa: BLE001
+                        # the same message encoded with another addressing: a refusal that depends on priority / source / destination
+                        # is an identifier problem (whether the message can be encoded at all is C02/C09's subject)
+                        refused.setdefault(pgn, []).append((prio, src, dst, f"{type(ex).__name__}: {ex}"))
+                        continue
+                    accepted.add(pgn)
                     ids = (int.from_bytes(pk_e[0][1:5], "big"), int.from_bytes(pk_u[0][5:9], "little"), int(pk_y[0].split()[0], 16))
                     n += 3
                     if any(i != want for i in ids):
@@ -129,6 +134,10 @@ def _task_public(args):
                         got = (back.PGN, back.source, back.destination, back.priority) if back is not None and not isinstance(back, str) else back
                         if got != exp and len(bad) < 20:
                             bad.append(("public_roundtrip:" + label, (prio, pgn, src, dst), got, exp))
+    for pgn, lst in refused.items():
+        if pgn in accepted and len(bad) < 20:
+            prio, src, dst, why = lst[0]
+            bad.append(("public_identifier", (prio, pgn, src, dst), why, "packets (the same message is encoded with other addressings)"))
     return n, bad
 
 
